@@ -1,7 +1,8 @@
 //! The trace-context runtime of one case, assembled from `emit_traceparent`'s public pieces exactly
 //! as `setup_with_sampler(..).and_emit_when(in_sampled_trace_filter(b))` would, but as an explicit
 //! value: recorder, `TraceparentFilter<Sampler> AND Option<InSampledTraceFilter>`,
-//! `TraceparentCtxt<ThreadLocalCtxt>` (fresh instance), counting clock, non-repeating counter rng.
+//! `TraceparentCtxt<ThreadLocalCtxt>` (fresh instance) — as itself or behind any of the public wrapper impls of
+//! `Ctxt` (`ctxt.rs`), which is why the runtime type is generic in it —, counting clock, non-repeating counter rng.
 
 use std::ops::ControlFlow;
 use std::sync::atomic::{AtomicU64, Ordering};
@@ -37,13 +38,16 @@ impl emit::Filter for TpFilter {
     }
 }
 
-pub type Rt = Runtime<
-    Recorder,
-    And<TpFilter, Option<InSampledTraceFilter>>,
-    TraceparentCtxt<ThreadLocalCtxt>,
-    CountingClock,
-    CounterRng,
->;
+pub type Rt<C> = Runtime<Recorder, And<TpFilter, Option<InSampledTraceFilter>>, C, CountingClock, CounterRng>;
+
+/// What the interpreter needs of the runtime's ctxt type: frames travel to other threads, the runtime is
+/// shared between them. (Not `'static`: `&TraceparentCtxt<..>` is one of the types.)
+pub trait RtCtxt: emit::Ctxt<Frame: Send> + Send + Sync {}
+
+impl<C: emit::Ctxt<Frame: Send> + Send + Sync> RtCtxt for C {}
+
+/// The trace-context ctxt itself.
+pub type TpCtxt = TraceparentCtxt<ThreadLocalCtxt>;
 
 /// `Traceparent::current()` as plain data.
 #[derive(Debug, Clone, Copy, PartialEq, Eq)]
@@ -194,7 +198,7 @@ impl Rng for CounterRng {
     }
 }
 
-pub fn build(case: &Case) -> (Rt, Recorder, Log) {
+pub fn build<C: RtCtxt>(case: &Case, ctxt: C) -> (Rt<C>, Recorder, Log) {
     let rec = Recorder::default();
     let log: Log = Arc::new(Mutex::new(Vec::new()));
     let sampler: Sampler = {
@@ -215,7 +219,7 @@ pub fn build(case: &Case) -> (Rt, Recorder, Log) {
             if case.no_sampler { TpFilter::Plain(TraceparentFilter::new()) } else { TpFilter::Sampling(TraceparentFilter::new_with_sampler(sampler)) },
             case.in_sampled.map(in_sampled_trace_filter),
         ))
-        .with_ctxt(TraceparentCtxt::new(ThreadLocalCtxt::new()))
+        .with_ctxt(ctxt)
         .with_clock(CountingClock(AtomicU64::new(0)))
         .with_rng(CounterRng { next: AtomicU64::new(case.rng) });
     (rt, rec, log)
